@@ -267,10 +267,11 @@ def ms_paths(py: PyRepo):
         if isinstance(call.func, ast.Name) and call.func.id in mi.functions and call.func.id != fn0.name:
             g = mi.functions[call.func.id]
             calls_self = any(isinstance(n, ast.Call) and isinstance(n.func, ast.Name) and n.func.id == g.name for n in ast.walk(g))
-            if not calls_self and not any(isinstance(n, (ast.For, ast.While)) for n in ast.walk(g)):
+            if not calls_self and not any(isinstance(n, ast.While) for n in ast.walk(g)):
                 return g, None
         return None
-    return fn0, PyEval(resolver=resolver).paths(fn)
+    # a helper that loops over a short literal list of sub-problems (`for p, i in ((a0, b0), (a1, b1))`) is unrolled on the value level
+    return fn0, PyEval(resolver=resolver, unroll_literal_loops=True).paths(fn)
 
 
 def _leaves(v, out):
@@ -295,9 +296,16 @@ def match_single_shape(ctx, py: PyRepo):
     P, I, EXT = (('param', a.arg) for a in fn.args.args)
     NAME = ('attr', P, 'name')
 
+    path_now = [None]
+
     def is_seed(v):
+        """the accumulated substitution: the `extend` argument, the choice `extend if extend else {}`, or - on a path where `extend`
+        was found empty / missing - the fresh {} that stands in for it"""
         lv = _leaves(v, [])
-        return EXT in lv and all(x in (EXT, ('dict', ())) for x in lv)
+        if EXT in lv and all(x in (EXT, ('dict', ())) for x in lv):
+            return True
+        missing = path_now[0] is not None and any(c == EXT and b is False for c, b in path_now[0].conds)
+        return bool(lv) and missing and all(x == ('dict', ()) for x in lv)
 
     def is_rec(v):
         return isinstance(v, tuple) and v and v[0] == 'call' and v[1] == ('name', fn.name)
@@ -312,6 +320,7 @@ def match_single_shape(ctx, py: PyRepo):
     bad_thread, bad_bound, unknown_bound = [], [], []
     ctor_ok: set[str] = set()
     for p in paths:
+        path_now[0] = p
         cur = None                                     # the substitution built so far (None: still the seed)
         for e in p.events:
             if e.kind != 'ecall' or not is_rec(e.value):
@@ -423,6 +432,53 @@ def match_single_paths(ctx, py: PyRepo):
                 a, d = is_destr(c[2]), is_destr(c[3])
                 if a[0] != d[0] or a not in est or d not in est:
                     bad_cmp.append(f'{show(c)} on a path that established only {sorted(x[0] for x in est)}')
+    # every component of the constructor is matched: on a successful path that handles constructor C, each component i of the two
+    # destructurings is either handed pairwise to a recursive call or compared for equality (the bound variable of a binder)
+    def n_components(cname, how):
+        ci_ = py.cls(cname, 'pattern')
+        if how == 'unwrap':
+            return len([1 for _f, t in ci_.fields if t and 'Pattern' in t])
+        g = ci_.methods.get('deconstruct') if ci_ is not None else None
+        if g is None:
+            return None
+        from .c16 import returned_exprs
+        lens = {len(v.elts) if isinstance(v, ast.Tuple) else 0 for _st, v in returned_exprs(g)
+                if not (isinstance(v, ast.Constant) and v.value is None) and not isinstance(v, ast.Call)}
+        return lens.pop() if len(lens) == 1 else None
+
+    def comp(d, i):
+        return {('item', d, i), ('sub', d, ('const', i))}
+    missing = []
+    for p in paths:
+        if p.end[0] != 'return' or p.end[1] == ('const', None):
+            continue
+        dvals = {}
+        for c, b in p.conds:
+            for v in ([c[2]] if c[0] == 'cmp' and c[1] == 'is' and c[3] == ('const', None) and b is False else ([c] if b is True else [])):
+                if v[0] == 'call' and is_destr(v):
+                    dvals[is_destr(v)] = (v, v[1][2])
+        ctors = {k[0] for k in dvals}
+        recs = [e.value for e in p.events if e.kind == 'ecall' and e.value[0] == 'call' and e.value[1] == ('name', fn.name)]
+        eqs = [(c[2], c[3]) for c, b in p.conds if c[0] == 'cmp' and ((c[1] == '==' and b is True) or (c[1] == '!=' and b is False))]
+        for cname in sorted(ctors):
+            if (cname, P) not in dvals or (cname, I) not in dvals:
+                continue
+            (dp, how), (di, _h) = dvals[(cname, P)], dvals[(cname, I)]
+            k = n_components(cname, how)
+            if k is None:
+                continue
+            if k == 0:
+                if not any({a, b_} == {dp, di} for a, b_ in eqs):
+                    missing.append(f'{cname}: the two destructured values are not compared')
+                continue
+            for i in range(k):
+                paired = any(len(r[2]) >= 2 and r[2][0] in comp(dp, i) and r[2][1] in comp(di, i) for r in recs) \
+                    or any((a in comp(dp, i) and b_ in comp(di, i)) or (b_ in comp(dp, i) and a in comp(di, i)) for a, b_ in eqs)
+                if not paired:
+                    missing.append(f'{cname}: component {i} of the pattern is neither matched against nor compared with component {i} of the instance')
+    ctx.ob('match-shape', 'all-components-matched', not missing,
+           'match_single reports a match for a constructor without having matched all of its components: ' + '; '.join(sorted(set(missing))[:3]),
+           where)
     ctx.ob('match-shape', 'notation-matched-through-expansion', deleg_ok and notation_paths >= 1,
            'in the notation branch of match_single a failure (None) is returned without trying the expansion: two applications of one '
            'notation can denote equal patterns although their arguments differ (an argument the definition ignores), so a shortcut may '
@@ -441,7 +497,14 @@ def match_list_shape(ctx, py: PyRepo):
     where = py.where('pattern', fn)
     ctx.require(len(fn.args.args) == 1, 'pattern.match: signature changed')
     EQS = ('param', fn.args.args[0].arg)
-    paths = PyEval().paths(fn)
+    mi_ = py.module('pattern')
+
+    def helper_resolver(call, env, _ev):
+        """private module-level helpers (the loop over the equations moved into `_solve(equations, acc)`) are evaluated in place"""
+        if isinstance(call.func, ast.Name) and call.func.id.startswith('_') and call.func.id in mi_.functions and call.func.id not in env:
+            return mi_.functions[call.func.id], None
+        return None
+    paths = PyEval(resolver=helper_resolver).paths(fn)
     final = [p for p in paths if p.end[0] == 'return' and p.end[1] != ('const', None)]
     ctx.require(len(final) >= 1, 'pattern.match: no returning path')
     n = 0
@@ -488,14 +551,14 @@ def run(ctx):
     from . import c12
     for mname, qn, fn, subj, lst, has_inst in c12.dispatch_sites(py):
         if qn == 'match_single':
-            ok = has_inst and c12.instantiate_branch_sees_through(fn, subj)
+            ok = c12.sees_through(py, fn, subj, has_inst)
             ctx.ob('match-shape', f'sees-through-notation({subj})', ok,
                    'match_single tests the pattern for MetaVar before expanding notation: a notation whose body is a bare metavariable never matches',
                    py.where(mname, fn))
         elif mname == 'pattern' and (mname, qn.split('.')[-1]) not in c12.SYNTACTIC:
             # the destructuring helpers match_single relies on (unwrap, X.deconstruct): all notation levels must be expanded, on both
             # sides, or an instance that is a notation over a notation fails to match its own expansion
-            ok = has_inst and c12.instantiate_branch_sees_through(fn, subj)
+            ok = c12.sees_through(py, fn, subj, has_inst)
             ctx.ob('match-shape', f'helper-sees-through-notation/{qn}', ok,
                    f'{qn} is used by match_single to destructure both sides; it does not expand every level of notation around `{subj}` '
                    f'(one simplify() strips one level): matching a pattern against a notation application of it fails', py.where(mname, fn))
